@@ -10,6 +10,7 @@
 #include <tins/utils/checksum_utils.h>
 #include <chrono>
 #include <cstring>
+#include <mutex>
 #include <sstream>
 #include <string>
 #include <vector>
@@ -774,9 +775,25 @@ __attribute__((noinline)) uint32_t guarded_lookup(uint32_t i) {
 uint64_t w_guarded_a(int) { uint64_t h = 0; for (uint32_t i = 0; i < 6; ++i) h = h * 31 + guarded_lookup(i); return h; }
 uint64_t w_guarded_b(int) { uint64_t h = 0; for (uint32_t i = 9; i < 15; ++i) h = h * 31 + guarded_lookup(i); return h; }
 
+
+// Locked: a static cache protected by a std::mutex: shared and written, but every access is synchronised.
+__attribute__((noinline)) uint64_t locked_cache(uint32_t v) {
+    static std::mutex mtx;
+    static uint32_t cache[4];
+    std::lock_guard<std::mutex> hold(mtx);
+    for (int i = 0; i < 4; ++i) cache[i] = v * (i + 1);
+    uint64_t h = 0;
+    for (int i = 0; i < 4; ++i) h = h * 1099511628211ULL + cache[i];
+    return h;
+}
+uint64_t w_locked_a(int) { return locked_cache(0x1234567u) ^ (locked_cache(77) << 3); }
+uint64_t w_locked_b(int) { return locked_cache(0x7654321u) ^ (locked_cache(99) << 3); }
+
 }  // namespace
 
 namespace c18 {
+uint64_t sweep_build_serialize(int scale);      // harness/C18_sweep.cpp
+uint64_t sweep_parse_getters(int scale);
 const Workload kWorkloads[] = {
     {"parse_eth_ip_tcp", w_parse_tcp, LIBTINS},
     {"parse_dns", w_parse_dns, LIBTINS},
@@ -791,13 +808,17 @@ const Workload kWorkloads[] = {
     {"pdu_copy_move_clone", w_copy_move, LIBTINS},
     {"allocator_registry", w_registry, LIBTINS},
     {"icmpv6_dhcpv6_options", w_options6, LIBTINS},
+    {"sweep_build_serialize", sweep_build_serialize, LIBTINS},
+    {"sweep_parse_getters", sweep_parse_getters, LIBTINS},
     {"canary_racy_a", w_canary_a, CANARY_RACY},
     {"canary_racy_b", w_canary_b, CANARY_RACY},
     {"canary_guarded_a", w_guarded_a, CANARY_GUARDED},
     {"canary_guarded_b", w_guarded_b, CANARY_GUARDED},
+    {"canary_locked_a", w_locked_a, CANARY_LOCKED},
+    {"canary_locked_b", w_locked_b, CANARY_LOCKED},
 };
 const int kNumWorkloads = sizeof(kWorkloads) / sizeof(kWorkloads[0]);
-const int kNumLibtins = 13;
+const int kNumLibtins = 15;
 
 void setup_registry() {
     Allocators::register_allocator<EthernetII, UserPDU<0> >(0x88b5);
